@@ -39,6 +39,12 @@ class Fmt:
         return f"{self.order}{self.codes}{'*n' if self.variable else ''}"
 
 
+def expand_counts(codes: str) -> str:
+    """'4B' is 'BBBB' (repeat counts written out; the count of `s` / `p` is a length and stays)."""
+    import re as _re
+    return _re.sub(r"(\d+)([a-oq-rt-zA-Z?])", lambda m: m.group(2) * int(m.group(1)), codes.replace(" ", ""))
+
+
 def parse_fmt(repo: Repo, ci: Optional[ClassInfo], e: ast.expr, env: Optional[Dict[str, ast.expr]] = None, sf=None) -> Optional[Fmt]:
     env = env or {}
     e = subst(e, env)
@@ -46,7 +52,7 @@ def parse_fmt(repo: Repo, ci: Optional[ClassInfo], e: ast.expr, env: Optional[Di
         s = repo.fold(e, ci=ci, sf=sf)
         if isinstance(s, str):
             order = s[0] if s[:1] in "<>=!@" else ""
-            return Fmt(order, s[len(order):], False, s)
+            return Fmt(order, expand_counts(s[len(order):]), False, s)
     except NotConst:
         pass
     # "<" + "i" * n   /  "B" * n  /  f"<{self.type}" / "<" + self.type * self.length
